@@ -6,6 +6,7 @@ import FlowRecord.Drive.Selector
 import FlowRecord.Drive.C06
 import FlowRecord.Drive.C15
 import FlowRecord.Drive.C12
+import FlowRecord.Drive.C05
 import FlowRecord.Drive.Wire
 import FlowRecord.Drive.C10
 import FlowRecord.Drive.C16
@@ -32,6 +33,7 @@ def handlers : List Handler := [
   handleC06,
   handleC15,
   handleC12,
+  handleC05,
   handleWire,
   handleC10,
   handleC16,
